@@ -406,6 +406,11 @@ func c04AtomicOnly(c *Ctx, m *Module) {
 									kind = "non-atomic pointer type " + t + " escapes"
 								}
 							case *ssa.UnOp:
+								if constExpr(x.Index, 0) {
+									// a word at a FIXED offset is part of the file header, which is
+									// written before the file is shared and never modified afterwards
+									continue
+								}
 								allAtomic = false
 								kind = "plain load through " + t
 							default:
@@ -436,6 +441,8 @@ func c04AtomicOnly(c *Ctx, m *Module) {
 							kind = "atomic" // name copy into a reserved, not yet linked record
 						case cn == "builtin:copy" && argsOf(y)[1] == ssa.Value(x):
 							kind = "atomic" // read
+						case cn == "bytes.Equal" || cn == "bytes.HasPrefix" || cn == "bytes.HasSuffix" || cn == "bytes.Compare":
+							kind = "atomic" // read-only comparison, as the header test on the whole mapping
 						}
 					case *ssa.Return, *ssa.Store, *ssa.Convert, *ssa.DebugRef:
 						kind = "atomic" // name bytes handed to the caller (immutable once the record is linked)
@@ -649,4 +656,33 @@ func c04ValueAdd(c *Ctx, m *Module, rule string) {
 		r.Check(rule, "Counter.add/sum tested for wrap-around", m.Pos(bo.Pos()), tested, "every old+n that can be installed must be compared with old (sum < old ⇒ saturate); an untested sum wraps at 2^64")
 	}
 	r.Check(rule, "Counter.add/sums enumerated", m.Pos(add.Pos()), nAdd >= 1, fmt.Sprintf("%d", nAdd))
+}
+
+// constExpr: v is computed from compile-time constants only (operators, conversions, and calls
+// of this module's read-only functions such as round).
+func constExpr(v ssa.Value, depth int) bool {
+	if depth > 6 {
+		return false
+	}
+	switch x := v.(type) {
+	case *ssa.Const:
+		return true
+	case *ssa.BinOp:
+		return constExpr(x.X, depth+1) && constExpr(x.Y, depth+1)
+	case *ssa.Convert:
+		return constExpr(x.X, depth+1)
+	case *ssa.ChangeType:
+		return constExpr(x.X, depth+1)
+	case *ssa.Call:
+		if x.Call.IsInvoke() || !pureCallee(&x.Call) {
+			return false
+		}
+		for _, a := range x.Call.Args {
+			if !constExpr(a, depth+1) {
+				return false
+			}
+		}
+		return true
+	}
+	return false
 }
